@@ -28,7 +28,7 @@ from fractions import Fraction
 import common
 import sched
 import fakeaudio
-import c17_tr
+from props import c17_tr
 
 ID = "C17"
 RULE = ("every schedule with <= B pre-emptions (one player: B=2 quick, 3 thorough; two players: B=2; three players: B=1 quick, "
